@@ -81,19 +81,25 @@ CHECKS = {
         "the first is asked.", ref="7/C22",
    technique="Coq proof: frame theorem + constructor-forgets (Properties/C22.v) + model-vs-implementation correspondence on multi-query histories + reference-search oracle per query"),
  "C23": dict(
-   text="PARTIAL with respect to the runtime (the timer thread, OS scheduling and thread_timer's cancel() are outside every "
-        "model). Machine-checked for EVERY schedule of the stop flag (never, or raised at the n-th read for any n): solve "
-        "reports the timeout message iff the read after the request is true, else `No more.` or the text of the answer the "
-        "request returned; solve_all reports the texts of answers that next_solution returned and after which the flag still "
-        "read false - an answer returned by a request during which the flag was raised is dropped -, the list is complete "
-        "when the search ended with the flag still false, and the timeout message follows exactly when the final read is true "
-        "(always after a cut-short search; the flag stays raised until the next query starts); and when no stop is pending the "
-        "search never raises the flag itself, solve_all reports no timeout and its list is exactly the formatted answers of "
-        "the reference search, in order (C23_no_stop_pending, via the refinement theorem). Tied to the code with the "
-        "hook that raises the flag at the n-th read, for every n < 40 on fixed programs and random n on random ones; oracle: "
-        "the reported texts are a prefix of the reference answers, complete without message, never a message without a raise.",
+   text="PARTIAL only with respect to real time (when the OS runs a timer thread is outside every model). Machine-checked: "
+        "(1) the flag protocol of time_out.rs as a state machine (Model/Timer.v; every operation of the module is one atomic "
+        "step on the word QUERY_STATE, so the interleavings of the main thread with the timer threads are the sequences of "
+        "steps): for EVERY interleaving - time-outs of any timer ever started, late, cancelled or superseded - the flag goes "
+        "up only through stop_query() or the time-out of the current query's own timer while that query is still running, a "
+        "stale or cancelled timer changes nothing, the flag stays up until the next query starts (C23_flag_raised_only_by, "
+        "C23_stale_timer_is_ignored, C23_cancelled_timer_is_ignored, C23_flag_stays_until_next_query, C23_own_timer_stops); the protocol "
+        "before the repair ba4370f is refuted by a concrete schedule (C23_old_protocol_refuted) that was reproduced on the real "
+        "code. (2) For EVERY schedule of the stop flag (never, or raised at the n-th read for any n): solve reports the timeout "
+        "message iff the read after the request is true, else `No more.` or the text of the answer the request returned; "
+        "solve_all reports the texts of answers after which the flag still read false, the list is complete when the search "
+        "ended with the flag false, the message follows exactly when the final read is true; when no stop is pending the search "
+        "never raises the flag and solve_all's list is exactly the formatted reference answers (C23_no_stop_pending). Tied to "
+        "the code by hooks: the flag raised at the n-th read (every n < 40 on fixed programs, random n on random ones) and the "
+        "protocol driven step by step - all interleavings up to 4 steps, random ones up to 12 - with the time-out of any timer "
+        "fired by hand; oracles: reported texts are a prefix of the reference answers, complete without message; flag up/down "
+        "laws on the implementation's observations.",
    ref="7/C23",
-   technique="Coq proof about the drivers under all flag schedules (Properties/C23.v) + deterministic flag schedule hook for model-vs-implementation correspondence + reference-search prefix oracle"),
+   technique="Coq proof of the timer protocol as a state machine under all interleavings + Coq proof about solve/solve_all under all flag schedules (Properties/C23.v) + hook-driven model-vs-implementation correspondence (flag schedule, protocol steps) + reference-search prefix oracle"),
 
  "C21": dict(
    text="Machine-checked theorems about the model of src/rule_reader.rs (after six repairs): for every list of rule "
@@ -287,6 +293,6 @@ def main():
     with open(os.path.join(VERIF, "MANIFEST.json"), "w") as f:
         json.dump(m, f, indent=1)
 
-HOOK_COMMITS = ["688dc2a", "b29e872", "43aafa9", "7e70c35"]
+HOOK_COMMITS = ["688dc2a", "b29e872", "43aafa9", "7e70c35", "b7cf2d6", "f7bfd95"]
 if __name__ == "__main__":
     main()
